@@ -21,7 +21,9 @@ import unified_planning as up
 import unified_planning.engines as engines
 from unified_planning.engines.mixins.compiler import CompilationKind, CompilerMixin
 from unified_planning.engines.results import CompilerResult
-from unified_planning.engines.compilers.utils import rewritten_problem_kind
+from unified_planning.engines.compilers.utils import (
+    simplified_numbers_problem_kind,
+)
 from unified_planning.model import (
     Problem,
     ProblemKind,
@@ -152,7 +154,8 @@ class UsertypeFluentsRemover(engines.engine.Engine, CompilerMixin):
     def resulting_problem_kind(
         problem_kind: ProblemKind, compilation_kind: Optional[CompilationKind] = None
     ) -> ProblemKind:
-        new_kind = rewritten_problem_kind(problem_kind)
+        # durations and action costs are simplified once the usertype fluents are removed from them
+        new_kind = simplified_numbers_problem_kind(problem_kind)
         if new_kind.has_object_fluents():
             new_kind.unset_fluents_type("OBJECT_FLUENTS")
             new_kind.set_effects_kind("CONDITIONAL_EFFECTS")
